@@ -163,6 +163,8 @@ private:
     );
     bool scanEq();
     void scanIgnoredSection();
+    void scanExtSubsetDeclImpl(const bool inIncludeSect, const bool isDTD);
+    bool scanInternalSubsetImpl();
     void scanMarkupDecl(const bool parseTextDecl);
     bool scanMixed(DTDElementDecl& toFill);
     void scanNotationDecl();
